@@ -84,6 +84,8 @@ func c07Digest(m *dns.Msg) string {
 				for _, e := range o.Option {
 					if ede, ok := e.(*dns.EDNS0_EDE); ok {
 						os = append(os, fmt.Sprintf("ede%d:%s", ede.InfoCode, ede.ExtraText))
+					} else if sn, ok := e.(*dns.EDNS0_SUBNET); ok {
+						os = append(os, fmt.Sprintf("ecs%d:%s/%d/%d", sn.Family, sn.Address, sn.SourceNetmask, sn.SourceScope))
 					} else {
 						os = append(os, fmt.Sprint(e.Option()))
 					}
@@ -321,6 +323,7 @@ func TestVerifC07Stack(t *testing.T) {
 		ad, opt        bool // the AD bit set in the query; an OPT record without the DO bit
 		ch             bool // CHAOS class: the debug variant of the query
 		ecs            bool // a client-subnet option (with an OPT record)
+		ecs0           bool // ... that declines the use of the client's subnet (0.0.0.0/0)
 		conc           *dns.Msg
 		idok, qok      bool
 	}
@@ -336,8 +339,7 @@ func TestVerifC07Stack(t *testing.T) {
 				m.SetEdns0(4096, j.do)
 			}
 			if j.ecs {
-				m.IsEdns0().Option = append(m.IsEdns0().Option, &dns.EDNS0_SUBNET{Code: dns.EDNS0SUBNET, Family: 1, SourceNetmask: 24,
-					Address: net.IPv4(198, 51, 100, 0).To4()})
+				m.IsEdns0().Option = append(m.IsEdns0().Option, c07ECSOpt(j.ecs0, j.client))
 			}
 			b, _ := m.Pack()
 			var raw []byte
@@ -397,8 +399,7 @@ func TestVerifC07Stack(t *testing.T) {
 			m.SetEdns0(4096, j.do)
 		}
 		if j.ecs {
-			m.IsEdns0().Option = append(m.IsEdns0().Option, &dns.EDNS0_SUBNET{Code: dns.EDNS0SUBNET, Family: 1, SourceNetmask: 24,
-				Address: net.IPv4(198, 51, 100, 0).To4()})
+			m.IsEdns0().Option = append(m.IsEdns0().Option, c07ECSOpt(j.ecs0, j.client))
 		}
 		// dns.Client rejects replies with a foreign id: read them ourselves
 		conn, derr := cl.Dial(addr)
@@ -432,6 +433,9 @@ func TestVerifC07Stack(t *testing.T) {
 			for i := 0; i < per; i++ {
 				jobs[c] = append(jobs[c], &job{client: fmt.Sprintf("127.0.0.%d", 10+c), netw: []string{"udp", "udp", "tcp", "doh", "doh", "doq", "tcp", "tcp-abort"}[rng.Intn(8)],
 					name: names[rng.Intn(len(names))], qt: types[rng.Intn(len(types))], do: rng.Intn(4) == 0, ad: rng.Intn(3) == 0, opt: rng.Intn(2) == 0, ch: rng.Intn(8) == 0, ecs: rng.Intn(4) == 0})
+				if j := jobs[c][len(jobs[c])-1]; j.ecs && rng.Intn(3) == 0 {
+					j.ecs0 = true
+				}
 			}
 		}
 		// every client starts the round with the same few names nobody has asked for yet: simultaneous
@@ -473,7 +477,8 @@ func TestVerifC07Stack(t *testing.T) {
 				}
 				cd, sd := c07Digest(j.conc), c07Digest(seq)
 				out.Emit(c07Resp{Ev: "Resp", Client: j.client, Prof: prof, Net: j.netw, Name: j.name, QType: j.qt, IDOK: j.idok, QOK: j.qok,
-					Conc: cd, Seq: sd, Same: cd == sd && j.conc != nil, ShapeOK: c07ShapeOK(prof, j.name, j.qt, j.conc) && c07ADOK(j.name, j.ad, j.do, j.conc)})
+					Conc: cd, Seq: sd, Same: cd == sd && j.conc != nil, ShapeOK: c07ShapeOK(prof, j.name, j.qt, j.conc) && c07ADOK(j.name, j.ad, j.do, j.conc) &&
+						c07ECSOK(j.ecs, j.ecs0, j.client, j.conc) && c07ECSOK(j.ecs, j.ecs0, j.client, seq)})
 			}
 		}
 	}
@@ -532,6 +537,44 @@ func c07TLSConfig(t testing.TB) *tls.Config {
 		t.Fatal(err)
 	}
 	return &tls.Config{Certificates: []tls.Certificate{{Certificate: [][]byte{der}, PrivateKey: key}}, MinVersion: tls.VersionTLS12}
+}
+
+// c07ECSOpt is the client-subnet option of the jobs that carry one: every client has a subnet of its own.
+func c07ECSOpt(decline bool, client string) *dns.EDNS0_SUBNET {
+	if decline {
+		return &dns.EDNS0_SUBNET{Code: dns.EDNS0SUBNET, Family: 1, SourceNetmask: 0, Address: net.IPv4zero.To4()}
+	}
+	last := byte(0)
+	if ip := net.ParseIP(client).To4(); ip != nil {
+		last = ip[3]
+	}
+	return &dns.EDNS0_SUBNET{Code: dns.EDNS0SUBNET, Family: 1, SourceNetmask: 24, Address: net.IPv4(198, 51, 100+last%4, 0).To4()}
+}
+
+// c07ECSOK: a client-subnet option in an answer belongs to its own request (RFC 7871, 7.2.1: family, source
+// prefix length and address of the query), never to somebody else's; only answers that carry one are judged.
+func c07ECSOK(ecs, decline bool, client string, m *dns.Msg) bool {
+	if m == nil {
+		return true
+	}
+	o := m.IsEdns0()
+	if o == nil {
+		return true
+	}
+	for _, e := range o.Option {
+		sn, ok := e.(*dns.EDNS0_SUBNET)
+		if !ok {
+			continue
+		}
+		if !ecs {
+			return false
+		}
+		want := c07ECSOpt(decline, client)
+		if sn.Family != want.Family || sn.SourceNetmask != want.SourceNetmask || !sn.Address.Equal(want.Address) {
+			return false
+		}
+	}
+	return true
 }
 
 // c07ShapeOK judges blocked A answers only.
